@@ -33,6 +33,13 @@
 
   (If the user removes the paragraph rule, `tokenize` pushes a bare `InlineRoot`; that is `para`
   minus the paragraph node, so every bound for `para` covers it.)
+
+  OUT OF SCOPE (not reachable in the cmark/extra/html plugin set, reported as a latent finding):
+  `generics::inline::code_pair::add_with::<MARKER, true>` (`TOKENIZE = true`) calls
+  `state.md.inline.tokenize(state)` on the span content WITHOUT raising `level` — a sixth recursive
+  site with increment 0.  Spans nest only with strictly growing marker lengths, so depth k needs an
+  input of about k² bytes: `'%'×1 ' ' '%'×2 ' ' … 'x' … ' ' '%'×2 ' ' '%'×1` gives k + 1 tokenizer
+  frames and tree depth k + 3 at `max_nesting = 3` (measured for k = 200).
 -/
 namespace MdIt.Nesting
 
@@ -53,6 +60,16 @@ def currentSites : Sites := ⟨1, 1, 1, 1, 1⟩
 def Sites.raising (s : Sites) : Bool :=
   decide (0 < s.quote) && decide (0 < s.listOuter + s.listItem) && decide (0 < s.linkLabel) &&
     decide (0 < s.skipRule)
+
+/-- the table as a plain list `[quote, listOuter, listItem, linkLabel, skipRule]`, for comparison
+with the generated constant (`Gen.Consts.levelSites = currentSites.toList := by decide`) -/
+def Sites.toList (s : Sites) : List Nat :=
+  [s.quote, s.listOuter, s.listItem, s.linkLabel, s.skipRule]
+
+/-- inverse of `toList` -/
+def Sites.ofList : List Nat → Option Sites
+  | [a, b, c, d, e] => some ⟨a, b, c, d, e⟩
+  | _ => none
 
 /-! ## Call trees -/
 
